@@ -8,7 +8,7 @@
 #include "crypto_pwhash/argon2/argon2.h"
 #include "crypto_pwhash/argon2/argon2-core.h"
 #define NF 11
-struct vin_t { char f[NF]; size_t flen; int which; };
+struct vin_t { char f[NF]; size_t flen; int which; uint32_t m, t, p; int type; size_t dst_len; };
 struct vin_t nondet_vin(void);
 struct vin_t vin;
 int sodium_base642bin(unsigned char *const bin, const size_t bin_maxlen, const char *const b64, const size_t b64_len, const char *const ignore, size_t *const bin_len, const char **const b64_end, const int variant)
@@ -19,7 +19,9 @@ int sodium_base642bin(unsigned char *const bin, const size_t bin_maxlen, const c
     return 0;
 }
 int argon2_validate_inputs(const argon2_context *context) { (void) context; return ARGON2_OK; }
-char *sodium_bin2base64(char *const b64, const size_t b64_maxlen, const unsigned char *const bin, const size_t bin_len, const int variant) { (void) b64_maxlen; (void) bin; (void) bin_len; (void) variant; return b64; }
+/* encoder stub: the unpadded Base64 length of bin_len bytes in 'A' digits (its real contract: c15.u.bin2base64) */
+char *sodium_bin2base64(char *const b64, const size_t b64_maxlen, const unsigned char *const bin, const size_t bin_len, const int variant)
+{ size_t n = (bin_len * 4 + 2) / 3, i; (void) bin; (void) variant; if (b64_maxlen <= n || n > 64) return NULL; for (i = 0; i < 64; i++) if (i < n) b64[i] = 'A'; b64[n] = 0; return b64; }
 #include "crypto_pwhash/argon2/argon2-encoding.c"
 
 void hb_decode_field(void)
@@ -54,5 +56,33 @@ void hb_decode_field(void)
     VASSERT("a numeric field is accepted exactly when it is a non-empty, minimal (no leading zero) decimal that fits 32 bits", (r == ARGON2_OK) == (digits && minimal && val <= 0xffffffffULL));
     VASSERT("and then the decoded parameter equals its value (never a value reduced modulo 2^32)", r != ARGON2_OK || got == (uint32_t) val);
     VREACH("hb_decode_field");
+}
+/* encode then decode: the parameters survive the textual form for every 32-bit value.
+ * NOT REGISTERED: the query (symbolic /10, %10 chains against the *10 chains of the decoder) did not finish in 20 minutes. */
+void hf_encode_decode(void)
+{
+    VIN_GET();
+#ifdef WHICH
+    if (WHICH != 0) vin.m = 65536; if (WHICH != 1) vin.t = 3; if (WHICH != 2) vin.p = 1;     /* one symbolic field per obligation */
+#endif
+    VASSUME(vin.type == Argon2_i || vin.type == Argon2_id);
+    char dst[160]; argon2_context ctx, back; unsigned char salt[16], out[32], salt2[16], out2[32]; int r, r2; size_t len, i, need;
+    memset(&ctx, 0, sizeof ctx); memset(salt, 7, 16); memset(out, 9, 32); memset(dst, 0x5a, sizeof dst);
+    ctx.salt = salt; ctx.saltlen = 16; ctx.out = out; ctx.outlen = 32; ctx.m_cost = vin.m; ctx.t_cost = vin.t; ctx.lanes = vin.p; ctx.threads = vin.p;
+    VASSUME(vin.dst_len <= 128);
+    r = argon2_encode_string(dst, vin.dst_len, &ctx, (argon2_type) vin.type);
+    if (r == ARGON2_OK) {
+        for (len = 0; len < 128 && dst[len] != 0; len++) { }
+        VASSERT("the encoded string is NUL terminated inside the buffer and nothing is written beyond dst_len", len < vin.dst_len && dst[vin.dst_len] == 0x5a);
+        memset(&back, 0, sizeof back); back.salt = salt2; back.saltlen = 16; back.out = out2; back.outlen = 32;
+        r2 = argon2_decode_string(&back, dst, (argon2_type) vin.type);
+        VASSERT("decode(encode(m, t, p)) succeeds and returns exactly m, t, p (minimal decimals, no truncation)", r2 == ARGON2_OK && back.m_cost == vin.m && back.t_cost == vin.t && back.lanes == vin.p && back.saltlen == 16 && back.outlen == 32);
+    } else {
+        VASSERT("the only failure is a buffer too small for the text", r == ARGON2_ENCODING_FAIL && vin.dst_len < 128);
+        for (i = vin.dst_len; i < 160; i++) if (dst[i] != 0x5a) r = 12345;
+        VASSERT("nothing is written beyond dst_len on failure either", r != 12345);
+    }
+    (void) need;
+    VREACH("hf_encode_decode");
 }
 VNATIVE_MAIN(VENTRY)
